@@ -45,6 +45,9 @@ RULES = collections.OrderedDict([
     ("relu_tt", ("relu", True, False, False)),
     ("neg_mul1_const", ("neg", True, False, False)),
     ("neg_mul1_init", ("neg", True, False, True)),
+    # replacement in a domain the host does not import: ai.onnx.ml::Scaler(x, offset=0, scale=-1) == Neg(x);
+    # the rewriter must add the opset import wherever the match sits
+    ("neg_mlscaler", ("neg", True, False, False)),
     ("split_reemit", ("split", True, False, False)),
     ("pair_reemit", ("pair", True, False, False)),
     ("pair_rev_reemit", ("pair_rev", True, False, False)),
@@ -89,6 +92,9 @@ def make_rule(rname):
         elif rname == "neg_mul1_const":
             def rep(op, x):
                 return op.Mul(E(op.Neg(x)), op.Constant(value_float=1.0))
+        elif rname == "neg_mlscaler":
+            def rep(op, x):
+                return op.Scaler(x, offset=[0.0], scale=[-1.0], _domain="ai.onnx.ml")
         elif rname == "neg_mul1_init":
             def rep(op, x):
                 one = op.initializer(ir.tensor(np.array(1.0, dtype=np.float32)), name=H.INIT_NAME)
